@@ -222,7 +222,10 @@ def impl(c):
         z = call('COMPLEX', [c['a'], c['b']])
         return [z, call('IMREAL', [z]), call('IMAGINARY', [z])]
     if k == 'formula':
-        return parser().parse(c['f'])
+        st, r = budgeted(lambda: parser().parse(c['f']))
+        if st == 'hang':
+            return {'result': None, 'error': 'does not return (budget exceeded)'}
+        return r
     return call(c['fn'], c['args'], traced=c['fn'] in TRACED or bool(c.get('guarded')))
 
 
